@@ -8,7 +8,8 @@ import vlib
 
 PROOFS = ["MgProof.C20.BitsLemmas", "MgProof.C20.SwapLemmas", "MgProof.C20.HexLemmas",
           "MgProof.C20.StrLemmas", "MgProof.C20.NumLemmas", "MgProof.C20.PathLemmas",
-          "MgProof.C20.NormLemmas", "MgProof.C20.NormRef", "MgProof.C20.NormRef2", "MgProof.C20.Props"]
+          "MgProof.C20.NormLemmas", "MgProof.C20.NormRef", "MgProof.C20.NormRef2", "MgProof.C20.FloatLemmas",
+          "MgProof.C20.Props"]
 GREP = ["MgModel/C20", "MgProof/C20", "MgModel/Common", "Drv/C20.lean"]
 REPO_SRCS = ["muggle/c/base/str.c", "muggle/c/os/path.c", "muggle/c/base/utils.c",
              "muggle/c/encoding/hex.c"]
